@@ -306,6 +306,7 @@ class ComposedNode(ConfigNode):
             if not _this_path:
                 _this_path = '<top-level node>'
 
+            removed = []
             for key, value in other._children.items():
                 child = self.ayns.get_child(key, None)
                 if child is None:
@@ -317,16 +318,22 @@ class ComposedNode(ConfigNode):
 
                     if merge:
                         if not possibly_new_child and not possibly_new_child.ayns.has_priority_over(value) and value.ayns.explicit_delete:
-                            self.ayns.remove_child(key)
+                            removed.append(key)
                         elif possibly_new_child is not child:
                             self.ayns.set_child(key, possibly_new_child)
                     else:
                         if possibly_new_child is not child:
                             possibly_new_child.ayns._require_all_new(path + [key], f'last parent: {_this_path!r}, from file: {self.ayns.source_file!r}', include_self=False)
                             if not possibly_new_child and possibly_new_child.ayns.explicit_delete:
-                                self.ayns.remove_child(key)
+                                removed.append(key)
                             else:
                                 self.ayns.set_child(key, possibly_new_child)
+
+            # only now: removing an element of a list renumbers the ones behind it, which the other keys of "other" still had to address
+            if isinstance(self, list):
+                removed = sorted({ self._validate_index(key) for key in removed }, reverse=True)
+            for key in removed:
+                self.ayns.remove_child(key)
 
             if other.ayns.has_priority_over(self, if_equal=True):
                 ret = self._replace_self(other, allow_promotions=True)
